@@ -446,7 +446,8 @@ def openPosition (q : Q) (e : E) (env : Env) (sender : Nat) (funds : Funds)
   let mr ← cdiv dd leverage
   requireAdditionalMargin (Integer.newPositive mr) e.cfg.imr
   let p := getPosition env e vamm sender side
-  let isIncrease := (p.direction = .addToAmm ∧ side = .buy) ∨ (p.direction = .removeFromAmm ∧ side = .sell)
+  -- (a record left at size zero by an earlier trade has nothing to reverse, whatever its direction)
+  let isIncrease := p.size.isZero = true ∨ (p.direction = .addToAmm ∧ side = .buy) ∨ (p.direction = .removeFromAmm ∧ side = .sell)
   let ml ← cmul margin leverage
   let openNotional ← cdiv ml e.cfg.decimals
   let msg ← if isIncrease then pure (swapInputMsg vamm side openNotional baseLimit false REPLY_INCREASE)
